@@ -355,7 +355,9 @@ WriteReadLabels(tag, D2, e, pdefsBefore, dataBefore, dl) ==
       \cup Lbl(\A rd \in {x \in reads : x.readable} :
                  LET Dr == [D2 EXCEPT !.inp = PairsToFun(rd.inputs)] IN
                  \A q \in Range(rd.values) :
-                 (NodeExists(Dr, q[1]) => q[2] = Den(Dr, q[1]))
+                 ((NodeExists(Dr, q[1])
+                   /\ Len(q[1][4]) = Len(FRec(Dr, CellRecOf(Dr, <<q[1][1], q[1][2]>>, q[1][3])).ps))
+                      => q[2] = Den(Dr, q[1]))
                  \/ ~PrintT(<<"INFO", tag, "read-back value", rd.fmt, q, "expected", Den(Dr, q[1])>>),
                "C04.ValuesRoundTrip")
       \cup Lbl(\A rd \in {x \in reads : x.readable /\ "defs2" \in DOMAIN x} :
